@@ -29,8 +29,13 @@ ID = "C15"
 LEVEL = "exploration"
 
 EX = "http://ex.org/"
+EMPTY, FALSE = ("L", "", None, None), ("L", "false", "http://www.w3.org/2001/XMLSchema#boolean", None)
 GRAPHS = [C04.BIG[0], C04.BIG[1], C04.BIG[2], C04.BIG[4], C04.BIG[5],
-          [(C04.A, C04.P, C04.B)], [(C04.A, C04.P, C04.A), (C04.A, C04.Q, C04.ONE)], [(C04.A, C04.P, C04.B), (C04.B, C04.P, C04.A)],
+          [(C04.A, C04.P, C04.B)],
+          # falsy terms as join keys (this check is differential, so "" and false can be used freely)
+          [(C04.A, C04.Q, C04.ZERO), (C04.B, C04.Q, C04.ONE), (C04.A, C04.P, C04.B), (C04.B, C04.P, EMPTY)],
+          [(C04.A, C04.Q, EMPTY), (C04.A, C04.Q, FALSE), (C04.B, C04.Q, C04.ZERO), (C04.A, C04.P, C04.A)],
+          [(C04.A, C04.P, C04.A), (C04.A, C04.Q, C04.ONE)], [(C04.A, C04.P, C04.B), (C04.B, C04.P, C04.A)],
           [(C04.A, C04.P, C04.B), (C04.B, C04.Q, C04.ONE)], [(C04.B, C04.P, C04.B), (C04.B, C04.Q, C04.B)], [], [(C04.A, C04.Q, C04.ONE), (C04.B, C04.Q, C04.TWO)]]
 
 
@@ -179,7 +184,22 @@ def skeleton(p):
     return C04.skeleton(p)
 
 
-def check_program(pat, graphs):
+def join_family():
+    """join / union / optional of a leaf BGP with every one-operator pattern on a leaf (both orientations arise through the swap):
+    these are the joins rdflib cannot evaluate by pushing bindings into the right operand, i.e. the ones that merge solution sets."""
+    leaves = [C04.bgp(t) for t in C04.LEAVES_SMALL]
+    out = []
+    for a in leaves:
+        for b in leaves:
+            for u in C04.unary(b, True):
+                for op in ("join", "union"):
+                    p = (op, a, u)
+                    if S.legal(p):
+                        out.append(p)
+    return out
+
+
+def check_program(pat, graphs, only=None):
     """All rewritings of one pattern over the graph family. Returns (viols, evaluations, nontrivial)."""
     viols = []
     evals = 0
@@ -197,7 +217,11 @@ def check_program(pat, graphs):
     for v in operand_swaps(pat):
         variants.append(("operand-swap", "SELECT * WHERE { %s }" % S.inner(v), None, {}))
     vs = sorted(all_vars(pat))
-    for perm in itertools.permutations(vs):
+    perms = list(itertools.permutations(vs))
+    if not _THOROUGH[0] and len(vs) > 3:
+        # quick: the transpositions and the rotation (they generate every permutation); thorough: every permutation
+        perms = [tuple(vs[j] if k == i else vs[i] if k == j else vs[k] for k in range(len(vs))) for i in range(len(vs)) for j in range(i + 1, len(vs))] + [tuple(vs[1:] + vs[:1])]
+    for perm in perms:
         m = dict(zip(vs, perm))
         if all(a == b for a, b in m.items()):
             continue
@@ -212,6 +236,8 @@ def check_program(pat, graphs):
         for term in (C04.A, C04.B):
             vq = "SELECT * WHERE { %s VALUES (?x) { (%s) } }" % (S.wrapped(pat), S.term_text(term))
             variants.append(("initBindings-vs-VALUES", base_q, None, {"initBindings": {"x": C04.mkterm(term)}, "values_query": vq}))
+    if only:
+        variants = [v for v in variants if v[0] in only]
     for kind, q, back, kw in variants:
         for gi, g in enumerate(gs):
             evals += 1
@@ -301,6 +327,9 @@ def _batch(arg):
         if kind == "rewrite":
             v, n, nt = check_program(it, GRAPHS if _THOROUGH[0] else GRAPHS[:8])
             nontriv += 1 if nt else 0
+        elif kind == "joins":
+            v, n, nt = check_program(it, GRAPHS if _THOROUGH[0] else GRAPHS[:8], only=("operand-swap", "bgp-permutation", "prefixed-names"))
+            nontriv += 1 if nt else 0
         elif kind == "prepared":
             v, n = check_prepared(it, [GRAPHS[0], GRAPHS[3], GRAPHS[7]])
             nontriv += 1
@@ -339,6 +368,8 @@ def run(ctx):
     if thorough:
         progs = progs + C04.programs(2, small_leaves=True)[len(C04.programs(1, small_leaves=True))::7]
     work = [("rewrite", sh) for sh in R.shards(progs, ctx.jobs * 8)]
+    jf = join_family()
+    work += [("joins", sh) for sh in R.shards(jf, ctx.jobs * 8)]
     prep = progs[:: (2 if thorough else 11)]
     work += [("prepared", sh) for sh in R.shards(prep, ctx.jobs * 4)]
     sq = store_queries(thorough)
@@ -351,16 +382,17 @@ def run(ctx):
         ctx.add("distinct_nontrivial", nt)
         counts.update(cnt)
     ctx.cov["queries_rewritten"] = len(progs)
+    ctx.cov["join_family"] = len(jf)
     ctx.cov["prepared_queries"] = len(prep)
     ctx.cov["store_queries"] = len(sq)
     ctx.cov["graphs"] = len(GRAPHS)
     ctx.cov["violating_by_signature"] = dict(counts.most_common(40))
     ctx.cov["exhaustive"] = True
     ctx.cov["rule"] = ("%d queries (all C04 patterns with <=1 operator%s) x {every permutation of each BGP, every join/union operand swap, every permutation of variable names, "
-                       "2 prefix tables, initBindings vs VALUES for ?x bound by the outermost BGP} x %d graphs; %d prepared queries x every sequence of <=3 evaluations over 3 graphs "
+                       "2 prefix tables, initBindings vs VALUES for ?x bound by the outermost BGP} x %d graphs; + %d joins/unions of a BGP with every one-operator pattern x {operand swap, BGP permutation, prefixes}; %d prepared queries x every sequence of <=3 evaluations over 3 graphs "
                        "(with initBindings at each position); %d queries (patterns, property paths, aggregates) x {SimpleMemory, AuditableStore, ReadOnlyGraphAggregate over every "
                        "2-partition}. Oracle: multiset equality with the base query. Non-trivial: base answer non-empty on >=1 graph." % (
-                           len(progs), " + a slice with 2" if thorough else "", len(GRAPHS), len(prep), len(sq)))
+                           len(progs), " + a slice with 2" if thorough else "", len(GRAPHS), len(jf), len(prep), len(sq)))
     ctx.sample({"query": "SELECT * WHERE { %s }" % S.inner(progs[len(progs) // 3]), "variants": ["bgp-permutation", "operand-swap", "variable-renaming", "prefixed-names"]})
     ctx.assumptions += ["aggregates of overlapping graphs are not used (the property says 'the same data'); initBindings only for ?x bound by the outermost BGP in queries without sub-SELECT"]
 
